@@ -58,7 +58,25 @@ func relevantHeaders(c vkit.Call) string {
 	return sb.String()
 }
 
+// remoteFresh: the remote side declares its answers fresh for a minute (what an HTTP cache, if one is enabled for the
+// endpoint, goes by)
+var remoteFresh bool
+
 func remoteFn(c vkit.Call) vkit.Reply {
+	rep := remoteAnswer(c)
+
+	if remoteFresh && rep.Status == 200 {
+		if rep.Header == nil {
+			rep.Header = map[string]string{}
+		}
+
+		rep.Header["Cache-Control"] = "max-age=60"
+	}
+
+	return rep
+}
+
+func remoteAnswer(c vkit.Call) vkit.Reply {
 	echo := sum(c.Path, c.RawQuery, relevantHeaders(c), string(c.Body))
 
 	switch {
@@ -139,6 +157,10 @@ type caseSpec struct {
 	RemotePath string
 	NT         bool
 	Forwarded  string // which request parts the mechanism forwards: both | headers | cookies | none
+	// HTTPCache: the endpoint has its HTTP cache enabled and the remote side declares its answers fresh; the mechanism's
+	// own cache is off. The requests to the endpoint are POST requests, the answer to one of which must never be taken for
+	// the answer to another one (RFC 7234, section 4.4; RFC 7231, section 4.3.3)
+	HTTPCache bool
 }
 
 func (c caseSpec) String() string {
@@ -235,7 +257,9 @@ const repetitions = 8
 var lastJTI string
 
 func checkCase(t *rapid.T, c caseSpec, excl map[string]bool) {
+	remoteFresh = c.HTTPCache
 	remote.Set(remoteFn)
+	vkit.S.LabelIf(c.HTTPCache, "http_cache_of_the_endpoint_only")
 
 	// cache on: A (repeated), then B
 	wOn, _, err := buildWorld(c, true)
@@ -298,7 +322,7 @@ func checkCase(t *rapid.T, c caseSpec, excl map[string]bool) {
 	}
 
 	// effectiveness: identical requests within the TTL reach the remote system once
-	if firstA.Status == 200 && callsA != 1 && c.RemotePath != "/none" {
+	if firstA.Status == 200 && callsA != 1 && c.RemotePath != "/none" && !c.HTTPCache {
 		if excl["map-order"] {
 			vkit.S.Exclude(kfMapOrder)
 
@@ -376,6 +400,12 @@ func genSubjectHandlerCase(t *rapid.T, family string) caseSpec {
 	c := caseSpec{Family: family, RemotePath: remotePath, NT: nh+1 >= 2 || nv >= 2}
 	m := config.Mechanism{ID: "m", Type: typ, Config: pc}
 
+	if rapid.IntRange(0, 5).Draw(t, "httpCacheOnly") == 3 {
+		c.HTTPCache = true
+		pc["cache_ttl"] = "0s"
+		pc["endpoint"].(map[string]any)["http_cache"] = map[string]any{"enabled": true, "default_ttl": "5m"}
+	}
+
 	if family == "remote_authorizer" {
 		c.Authz = []config.Mechanism{m}
 	} else {
@@ -394,7 +424,8 @@ func genSubjectHandlerCase(t *rapid.T, family string) caseSpec {
 		hdrB = hdrA
 	}
 
-	c.Kind = rapid.SampledFrom([]string{"equal", "equal", "subject", "value", "payload", "expressions", "shifted-values", "forwarded-header", "forwarded-cookie"}).Draw(t, "pairKind")
+	c.Kind = rapid.SampledFrom([]string{"equal", "equal", "subject", "value", "payload", "expressions", "shifted-values", "forwarded-header", "forwarded-cookie",
+		"shifted-names-payload"}).Draw(t, "pairKind")
 
 	if family == "generic_contextualizer" {
 		// headers and cookies are forwarded independently of each other; the component which differs is always forwarded
@@ -459,6 +490,19 @@ func genSubjectHandlerCase(t *rapid.T, family string) caseSpec {
 
 		c.Detail = c.Kind + " value"
 		c.Kind = "one-component"
+	case "shifted-names-payload":
+		// two rule-level options which are neighbours in what the result depends on: a list of header (cookie) names and the
+		// payload, the last name of A continued by the payload of A being the same text as in B
+		if family == "remote_authorizer" {
+			overA = map[string]any{"forward_response_headers_to_upstream": []any{"X-Remote-Echo"}, "payload": `Zone {"sub":"{{ .Subject.ID }}"}`}
+			overB = map[string]any{"forward_response_headers_to_upstream": []any{"X-Remote-EchoZ"}, "payload": `one {"sub":"{{ .Subject.ID }}"}`}
+		} else {
+			overA = map[string]any{"forward_cookies": []any{"region"}, "payload": `Zone {"sub":"{{ .Subject.ID }}"}`}
+			overB = map[string]any{"forward_cookies": []any{"regionZ"}, "payload": `one {"sub":"{{ .Subject.ID }}"}`}
+		}
+
+		c.Kind = "shifted"
+		c.Detail = "name list and payload shifted across their boundary"
 	case "shifted-values":
 		overA = map[string]any{"values": map[string]any{"x": "1y2", "y": "3"}}
 		overB = map[string]any{"values": map[string]any{"x": "1", "y": "2y3"}}
